@@ -5,7 +5,7 @@
 import os, sys
 sys.path.insert(0, os.path.join(os.environ.get("AIOFTP_REPO", "/repo"), "src"))
 OBLIGATION = 'aioftp.common:ThrottleStreamIO.wait::ThrottleStreamIO.wait/post:every-limited-throttle-of-the-direction-is-within-its-bound-on-return'
-MODEL = {'r0_sum!1': 0, 'w1_reset_rate!17': '1/1', 'r0_B!3': 0, 'r1_sum!13': 0, 'r1_t0!14': '-3/8', 'r1_B!15': 0, 'r1_rho!16': '0/1', 'r1_reset_rate!12': '1/1', 'clock!25': '-11/8', 'r0_rho!4': '0/1', 'r1_limit!22': '4/3', 'r0_start!11': '0/1', 'r0_reset_rate!0': '1/1', 'r0_limit!10': '41/24', 'r1_start!23': '-3/8', 'r0_t0!2': '0/1', 'clock!26': '-3/8', 'w0_reset_rate!5': '1/1'}
+MODEL = {'r0_sum!1': 1, 'w1_reset_rate!17': '1/1', 'r0_B!3': 0, 'r1_sum!13': -2, 'r1_t0!14': '21/16', 'r1_B!15': 0, 'r1_rho!16': '25525/12784', 'r1_reset_rate!12': '1/1', 'clock!25': '-5/4', 'r0_rho!4': '0/1', 'r1_limit!22': '1021/799', 'r0_start!11': '1199/2397', 'r0_reset_rate!0': '1/1', 'r0_limit!10': '1154/799', 'r1_start!23': '5371/4084', 'r0_t0!2': '-133/799', 'clock!26': '-1/4', 'w0_reset_rate!5': '1/1'}
 SOLVER_NOTE = ''
 
 print("obligation", OBLIGATION, "failed; no concrete failing input could be constructed automatically")
